@@ -179,6 +179,45 @@ pub fn fingerprint_eg<N: Analysis<Sym>>(eg: &EGraph<Sym, N>) -> u64 {
     fnv_str(&format!("{}|{}|{}|{}|{}|{:?}", p.number_of_classes, p.number_of_live_classes, p.sum_of_slots, p.sum_of_symmetries, eg.total_number_of_nodes(), per))
 }
 
+/// one history on a fresh e-graph with analysis N, then the invariant monitor
+fn run_one<N: Analysis<Sym> + Default>(h2: &[Op]) -> (Vec<(String, String, String)>, u64, u64, bool, u64) {
+    let mut eg = EGraph::<Sym, N>::default();
+    let mut rec = Vec::new();
+    let mut fails: Vec<(String, String, String)> = Vec::new();
+    let mut evals = 0u64;
+    let mut pre = None;
+    for (step, op) in h2.iter().enumerate() {
+        if step + 1 == h2.len() {
+            pre = Some(fingerprint_eg(&eg));
+        }
+        if let Err(site) = catch(|| apply_op(&mut eg, op, Naming::Numeric, &mut rec)) {
+            fails.push(("panic".into(), site.clone(), format!("operation {} ({}) panicked at {site}", step, op.show())));
+            return (fails, 0u64, evals, false, 0u64);
+        }
+    }
+    let fp = fingerprint_eg(&eg);
+    let p = eg.progress();
+    let mut goals = 0u64;
+    if p.sum_of_symmetries > p.number_of_live_classes {
+        goals |= 1;
+    }
+    if rec.iter().any(|(t, a)| eg.find_applied_id(a).slots().len() < t.fv().len()) {
+        goals |= 2;
+    }
+    if p.number_of_live_classes < p.number_of_classes {
+        goals |= 4;
+    }
+    for &i in &eg.ids() {
+        for n in eg.enodes(i) {
+            if n.applied_id_occurrences().iter().any(|c| c.id == i) {
+                goals |= 8;
+            }
+        }
+    }
+    check_invariants(&mut eg, &rec, &mut fails, &mut evals);
+    (fails, fp, evals, pre != Some(fp), goals)
+}
+
 impl Inv {
     fn segs(&self, tier: Tier) -> std::rc::Rc<Vec<SpaceSeg>> {
         cached_segments(&format!("inv{}", tier.name()), &spaces(tier))
@@ -206,7 +245,7 @@ impl Prop for Inv {
         vec!["history_with_symmetry", "history_with_redundancy", "history_with_merge", "self_referential_class", "test_language_history_with_rewriting"]
     }
     fn rule(&self) -> String {
-        "Every multiset of union/insert operations of the stated depth over the stated alphabets, in every distinct ordering (quick: unflipped and all-flipped orientations; thorough: all orientation patterns), is executed from the empty e-graph in a fresh thread, in the default build and in the build with the crate's internal assertions (`checks`). After each history: no panic/abort/hang, EGraph::check() passes, every e-node of every live class looks up to the identity invocation of that class, mentions all class slots and only refers to live classes, find is idempotent on every handle, a no-op union changes nothing, and extraction of every class and handle returns. The same monitor runs after every ordered sequence of 2-3 (thorough 4) operations (insert, union, rewrite iteration with the language's own rule sets incl. beta/let/substitution, ematch) over copies of the repository's test languages Arith, Sdql, Arith2, Fgh and ArrayLang. A history is non-trivial when its last operation changed the progress measure or node count.".into()
+        "Every multiset of union/insert operations of the stated depth over the stated alphabets, in every distinct ordering (quick: unflipped and all-flipped orientations; thorough: all orientation patterns), is executed from the empty e-graph in a fresh thread, once without analysis and once with a min-size analysis (so that analysis-only re-queueing interacts with structural re-queueing), in the default build and in the build with the crate's internal assertions (`checks`). After each history: no panic/abort/hang, EGraph::check() passes, every e-node of every live class looks up to the identity invocation of that class, mentions all class slots and only refers to live classes, find is idempotent on every handle, a no-op union changes nothing, and extraction of every class and handle returns. The same monitor runs after every ordered sequence of 2-3 (thorough 4) operations (insert, union, rewrite iteration with the language's own rule sets incl. beta/let/substitution, ematch) over copies of the repository's test languages Arith, Sdql, Arith2, Fgh and ArrayLang. A history is non-trivial when its last operation changed the progress measure or node count.".into()
     }
     fn assumptions(&self) -> Vec<String> {
         vec!["inputs are well-formed terms of the Sym driver language (multiset segments) and of copies of the repository's test languages Arith, Sdql, Arith2, Fgh, ArrayLang (sequence segments with insertion, union, rewriting with their rules, matching and extraction); rewriting over the arithmetic model language is additionally monitored by C03/C13/C14/C15".into()]
@@ -238,45 +277,12 @@ impl Prop for Inv {
             Tier::Thorough => Flips::All,
         };
         let mut out = Exec::default();
-        for hist in variants(&ops, flips) {
+        // the analysis variant doubles the cost: it is run for the small, interaction-rich alphabets
+        let segname = segs[seg].seg.name.clone();
+        let analysis_too = segname.starts_with("SHARE") || segname.starts_with("MICRO") || segname == "CORE^2" || segname.starts_with("SELF^1") || (tier == Tier::Thorough && (segname == "CORE^3" || segname.starts_with("T3")));
+        for (hist, with_analysis) in variants(&ops, flips).into_iter().flat_map(|h| if analysis_too { vec![(h.clone(), false), (h, true)] } else { vec![(h, false)] }) {
             let h2 = hist.clone();
-            let r = fresh_thread(move || {
-                let mut eg = EGraph::<Sym>::default();
-                let mut rec = Vec::new();
-                let mut fails: Vec<(String, String, String)> = Vec::new();
-                let mut evals = 0u64;
-                let mut pre = None;
-                for (step, op) in h2.iter().enumerate() {
-                    if step + 1 == h2.len() {
-                        pre = Some(fingerprint_eg(&eg));
-                    }
-                    if let Err(site) = catch(|| apply_op(&mut eg, op, Naming::Numeric, &mut rec)) {
-                        fails.push(("panic".into(), site.clone(), format!("operation {} ({}) panicked at {site}", step, op.show())));
-                        return (fails, 0u64, evals, false, 0u64);
-                    }
-                }
-                let fp = fingerprint_eg(&eg);
-                let p = eg.progress();
-                let mut goals = 0u64;
-                if p.sum_of_symmetries > p.number_of_live_classes {
-                    goals |= 1;
-                }
-                if rec.iter().any(|(t, a)| eg.find_applied_id(a).slots().len() < t.fv().len()) {
-                    goals |= 2;
-                }
-                if p.number_of_live_classes < p.number_of_classes {
-                    goals |= 4;
-                }
-                for &i in &eg.ids() {
-                    for n in eg.enodes(i) {
-                        if n.applied_id_occurrences().iter().any(|c| c.id == i) {
-                            goals |= 8;
-                        }
-                    }
-                }
-                check_invariants(&mut eg, &rec, &mut fails, &mut evals);
-                (fails, fp, evals, pre != Some(fp), goals)
-            });
+            let r = fresh_thread(move || if with_analysis { run_one::<crate::props::equiv::MinSize>(&h2) } else { run_one::<()>(&h2) });
             out.traces += 1;
             out.transitions += hist.len() as u64;
             let opsv = ops_strings(&hist);
